@@ -700,7 +700,9 @@ func (sd *SpecAnalyser) compareSchema(location DifferenceLocation, schema1, sche
 
 	if isArray(schema1) {
 		if isArray(schema2) {
-			sd.compareSchema(location, schema1.Items.Schema, schema2.Items.Schema)
+			if schema1.Items != nil && schema2.Items != nil && schema1.Items.Schema != nil && schema2.Items.Schema != nil {
+				sd.compareSchema(location, schema1.Items.Schema, schema2.Items.Schema)
+			}
 		} else {
 			sd.addDiffs(location, addTypeDiff([]TypeDiff{}, TypeDiff{Change: ChangedType, FromType: getSchemaTypeStr(schema1), ToType: getSchemaTypeStr(schema2)}))
 		}
